@@ -1,6 +1,62 @@
 /-
   C05 — DER decoding is canonical: re-encoding an accepted value reproduces the input.
-  (work in progress header; replaced at the end)
+
+  "Whenever decoding in DER mode accepts an encoding of a value of a supported type or composition,
+  encoding the decoded value in DER mode yields exactly the octets that were accepted.  Consequently
+  two different octet strings never decode in DER mode to equal values."
+
+  What is proved (every statement is for ALL inputs; no length or depth bounds; `runG0` = SliceSource
+  semantics, `runG` corollaries where stated):
+
+  1. Header canonicity (reference readers of Spec.Tlv / Spec.X690, which C12/C13 tie to the model readers
+     on every input):
+       `readIdent_canonical`  the identifier octets consumed are `identOctets` of what was read;
+       `readLen_canonical`    in DER/CER a definite length is consumed only in its shortest form `lenOctets n`;
+       `readLen_indefinite`   the indefinite form is the octet 80 (read in every mode; `der_no_indefinite`:
+                              rejected by the DER value rule); `readLen_lt`: lengths read are < 2^32;
+       `header_canonical`, `header_take`: both together.
+  2. Structure (the grammar `parseValue` / `parseAll` in DER mode = the generic reader, C02):
+       `treeBytes`, `treesBytes`   the canonical octets of a tree: identifier ++ minimal definite length ++ content;
+       `der_parse_canonical` (`parseValue_canonical`, `parseAll_canonical`)  accepted input = canonical octets
+                              of the trees returned (++ what follows the value);
+       `der_injective`, `der_value_injective`   equal trees ⇒ equal octets;
+       `decode_der_canonical`, `decode_der_injective`, `decode_der_canonical_runG`  the same for the model of
+                              `Mode::Der.decode` over `take_opt_value` (through `C02.accepts_consumes`);
+       `der_reparse`, `der_parse_wf`, `der_reencode_accepted`   the re-encoding is itself accepted, with the
+                              same trees (`wfTree(s)`: decidable well-formedness every DER parse result has;
+                              `fuelTree(s)`: the fuel the parser needs).
+  3. Typed leaves (`LeafCanon p pcOf`: whatever the accessor accepts is exactly `(pcOf v).write` for the value
+     `v` it returns): `leaf_int_canonical` (ten fixed-width types), `leaf_bool_canonical` (DER: only 00 / FF),
+     `leaf_null_canonical`, `leaf_integer_canonical`, `leaf_unsigned_canonical`, `leaf_oid_canonical`,
+     `leaf_bits_canonical` (+ `primOnly_bits`), `leaf_octets_canonical` (+ `primOnly_octets`; DER: primitive form only).
+  4. Typed framing, the inverse of `C04.frame_definite`:
+       `frame_inv`            a tag-selective `process_next_value` that returns a value in DER mode found the
+                              canonical header `hdrOctets cls b num len` in front of the data, inside the limit,
+                              ran the closure on the `len`-octet window behind it, left the `Constructed` unchanged
+                              and the limit reduced by header + `len`;
+       `der_value_framing(_opt)`, `der_prim_framing`   for primitive values read by window closures (`W p`: no
+                              limit changes, no capture — every leaf accessor, Lemmas/Window): the content was
+                              all there (`d = hdr ++ cnt ++ tail`), the closure saw exactly `cnt`, source left at `tail`;
+       `der_prim_canonical`   3 + 4: consumed octets = `Enc.write .der (.prim tag (pcOf v))`;
+       `canon_cons(_some)`, `canon_optCons`   constructed: consumed = `hdrOctets cls true num ib.length ++ ib`
+                              = `Enc.write .der (.cons tag (enc v))` where `ib` is what the inner decoder consumed;
+       `Canon`, `canon_*`, `DerCodec`, **`der_canonical`**   the algebra and its bundle: for every composition of
+                              primitive / optional / constructed / sequence / choice / mapped decoders, the octets
+                              consumed in DER mode (any context, any limit, anything following) are exactly what the
+                              matching encoder writes for the decoded value;
+       `top_canonical`, `top_canonical_runG`, `typed_injective(_full)`, `reencode_decodes`   at top level:
+                              `Mode::Der.decode` accepted ⇒ input = DER encoding of the value ++ unread rest; equal
+                              values ⇒ equal consumed octets.
+     Non-vacuity examples at the end (both sides of each case distinction; `sample_canonical` runs the bundle
+     on the SEQUENCE sample of C04, whose acceptance is a C04 theorem).
+
+  NOT covered: the untagged readers (`take_value`, `take_primitive`, `take_constructed` without `_if`) in the typed
+  algebra (section 2 covers them structurally); SET OF ordering and DEFAULT-value omission (the crate neither checks
+  nor encodes them specially: "canonical" here means "what this crate's encoder writes for the decoded value");
+  restricted character strings; `Captured`; constructed OCTET STRING / BIT STRING (rejected in DER: `primOnly_*`);
+  closures that change the limit or capture inside a primitive (hypothesis `W`); sources other than SliceSource
+  semantics (C07); faithfulness of the model to the Rust code (differential harness).  Known finding D12
+  (BER/CER capture of indefinite octet strings) does not concern DER mode.
 -/
 import Bcder.Props.C04
 import Bcder.Lemmas.Window
@@ -132,6 +188,34 @@ theorem readLen_indefinite (ber : Bool) (bs : Bytes) (k : Nat) (h : readLen ber 
           · split at h
             · simp at h
             · split at h <;> simp at h
+
+/-- a definite length read in DER mode fits the four length octets the library supports -/
+theorem readLen_lt (ber : Bool) (bs : Bytes) (n k : Nat) (h : readLen ber bs = some (some n, k)) : n < 2 ^ 32 := by
+  cases bs with
+  | nil => simp [readLen] at h
+  | cons b rest =>
+    have hb := byte_lt_256 b
+    simp only [readLen] at h
+    split at h
+    · simp at h; omega
+    · split at h
+      · simp at h
+      · split at h
+        · simp at h
+        · rename_i hk
+          split at h
+          · simp at h
+          · have hlt := C14.beValue_lt (rest.take (b.toNat - 128))
+            have hle : (rest.take (b.toNat - 128)).length ≤ 4 := by rw [List.length_take]; omega
+            have hp : 256 ^ (rest.take (b.toNat - 128)).length ≤ 256 ^ 4 := Nat.pow_le_pow_right (by decide) hle
+            have hv : ∀ v kk, (some (some (beValue (rest.take (b.toNat - 128))), 1 + (b.toNat - 128)) : Option (Option Nat × Nat))
+                = some (some v, kk) → v < 2 ^ 32 := by
+              intro v kk e; simp at e; omega
+            split at h
+            · exact hv _ _ h
+            · split at h
+              · exact hv _ _ h
+              · simp at h
 
 /-- the header of a value accepted in DER mode consists of exactly the canonical octets -/
 theorem header_canonical (bs : Bytes) (id : Ident) (k n kl : Nat) (h1 : readIdent bs = some (id, k))
@@ -360,10 +444,10 @@ theorem der_reparse : ∀ f : Nat,
         have heoc : isEocIdent id = false := by
           simp only [identOK, Bool.and_eq_true, Bool.not_eq_true'] at hid; exact hid.2
         rw [treeBytes_prim, List.append_assoc]
+        rw [hcn] at h1 h2 h3
         simp only [parseValue, h1, heoc, Bool.false_eq_true, if_false, hber, h2, h3, hcn, Bool.not_false, if_true,
           take_window, drop_window]
-        have : ¬ (c ++ rest).length < c.length := by simp
-        simp [this]
+        simp
       | cons id indef kids =>
         simp only [wfTree, Bool.and_eq_true, decide_eq_true_eq, Bool.not_eq_true'] at hw
         obtain ⟨⟨⟨⟨hid, hcn⟩, hindef⟩, hkids⟩, hlen⟩ := hw
@@ -373,9 +457,10 @@ theorem der_reparse : ∀ f : Nat,
         have hfk : fuelTrees kids ≤ f := by simp only [fuelTree] at hf; omega
         have hp := ihA kids hfk hkids
         rw [treeBytes_cons, List.append_assoc]
+        rw [hcn] at h1 h2 h3
         have hcer : (M.der == M.cer) = false := rfl
         have : ¬ (treesBytes kids ++ rest).length < (treesBytes kids).length := by simp
-        simp only [parseValue, h1, heoc, Bool.false_eq_true, if_false, hber, h2, h3, hcn, Bool.not_true,
+        simp only [parseValue, hcn, h1, heoc, Bool.false_eq_true, if_false, hber, h2, h3, Bool.not_true,
           take_window, drop_window, hcer, hp, this, hindef]
     · intro ts hf hw
       cases ts with
@@ -387,7 +472,7 @@ theorem der_reparse : ∀ f : Nat,
           rw [treesBytes_cons]
           have : 1 ≤ (treeBytes t).length := by
             have hi : ∀ c b n, 1 ≤ (identOctets c b n).length := by
-              intro c b n; unfold identOctets; split <;> simp
+              intro c b n; unfold identOctets; by_cases h : n ≤ 30 <;> simp [h]
             cases t with
             | prim id c => rw [treeBytes_prim]; simp [hdrOctets]; have := hi id.cls id.constructed id.num; omega
             | cons id b kids => rw [treeBytes_cons]; simp [hdrOctets]; have := hi id.cls id.constructed id.num; omega
@@ -555,34 +640,6 @@ theorem run_window0 (p : Prog α) (hp : W p) : ∀ (d : Bytes) (l : Nat) (a : α
       obtain ⟨j2, h3, h4, rfl⟩ := ih r _ _ a g' h
       simp only [List.length_drop] at h4
       exact ⟨j1 + j2, by omega, by omega, by rw [List.drop_drop]; congr 2; omega⟩
-
-/-- a definite length read in DER mode fits the four length octets the library supports -/
-theorem readLen_lt (ber : Bool) (bs : Bytes) (n k : Nat) (h : readLen ber bs = some (some n, k)) : n < 2 ^ 32 := by
-  cases bs with
-  | nil => simp [readLen] at h
-  | cons b rest =>
-    have hb := byte_lt_256 b
-    simp only [readLen] at h
-    split at h
-    · simp at h; omega
-    · split at h
-      · simp at h
-      · split at h
-        · simp at h
-        · rename_i hk
-          split at h
-          · simp at h
-          · have hlt := C14.beValue_lt (rest.take (b.toNat - 128))
-            have hle : (rest.take (b.toNat - 128)).length ≤ 4 := by rw [List.length_take]; omega
-            have hp : 256 ^ (rest.take (b.toNat - 128)).length ≤ 256 ^ 4 := Nat.pow_le_pow_right (by decide) hle
-            have hv : ∀ v kk, (some (some (beValue (rest.take (b.toNat - 128))), 1 + (b.toNat - 128)) : Option (Option Nat × Nat))
-                = some (some v, kk) → v < 2 ^ 32 := by
-              intro v kk e; simp at e; omega
-            split at h
-            · exact hv _ _ h
-            · split at h
-              · exact hv _ _ h
-              · simp at h
 
 theorem take_take_le (d : Bytes) (j l : Nat) (h : j ≤ l) : (d.take l).take j = d.take j := by
   rw [List.take_take, Nat.min_eq_left h]
@@ -1005,6 +1062,16 @@ theorem leaf_integer_canonical : LeafCanon integerFromPrimitive (fun c => .integ
   · simp only [Except.ok.injEq, Prod.mk.injEq] at h; rw [← h.1]; rfl
   · cases h
 
+/-- arbitrary-size unsigned INTEGER (`Unsigned::from_primitive`) -/
+theorem leaf_unsigned_canonical : LeafCanon unsignedFromPrimitive (fun c => .integer c) := by
+  intro cnt tail v g h
+  refine ⟨?_, rfl⟩
+  rw [primRun_of_run _ cnt tail _ (C15.unsignedFromPrimitive_spec cnt tail)
+    (by intro a g' e; split at e <;> simp at e; exact e.2.symm)] at h
+  split at h
+  · simp only [Except.ok.injEq, Prod.mk.injEq] at h; rw [← h.1]; rfl
+  · cases h
+
 /-- OBJECT IDENTIFIER -/
 theorem leaf_oid_canonical : LeafCanon Oid.fromPrimitive (fun c => .oid c) := by
   intro cnt tail v g h
@@ -1324,5 +1391,222 @@ theorem canon_choice {β : Type} (n i : Nat) (dec : Cons → Prog (β × Cons)) 
   intro c d lim v c' g' hm hr
   obtain ⟨bytes, tail, h1, h2, h3⟩ := h c d lim v c' g' hm hr
   exact ⟨bytes, tail, by simpa only [Enc.write] using h1, by simpa only [C06.IntsOK] using h2, h3⟩
+
+/-! ### the algebra, bundled -/
+
+/-- pairs of a decoder built from the crate's reading combinators and the encoder (as a function of
+    the decoded value) built from the matching encoding combinators — `C04.Codec` read the other way -/
+inductive DerCodec : {β : Type} → (Cons → Prog (β × Cons)) → (β → Enc) → Prop
+  /-- `take_primitive_if(tag, |prim| p)` / `v.encode_as(tag)` -/
+  | prim {α : Type} (cls num : Nat) (ht : TagOK cls num) (p : Prog α) (hp : W p) (pcOf : α → PC)
+      (hl : LeafCanon p pcOf) :
+      DerCodec (fun c => takePrimitiveIf c (C12.tagOf cls num) (fun md => do let a ← p; pure (a, md)))
+        (fun v => .prim (C12.tagOf cls num) (pcOf v))
+  /-- `take_opt_primitive_if` / `Option<…>` -/
+  | optPrim {α : Type} (cls num : Nat) (ht : TagOK cls num) (p : Prog α) (hp : W p) (pcOf : α → PC)
+      (hl : LeafCanon p pcOf) :
+      DerCodec (fun c => takeOptPrimitiveIf c (C12.tagOf cls num) (fun md => do let a ← p; pure (a, md)))
+        (optEnc fun v => .prim (C12.tagOf cls num) (pcOf v))
+  /-- primitive values whose decoder takes the `Content` (`BitString::from_content`, …) -/
+  | value {α : Type} (cls num : Nat) (ht : TagOK cls num) (op : Content → Prog (α × Content))
+      (hop : PrimOnly op) (pcOf : α → PC) (hl : LeafCanonC op pcOf) :
+      DerCodec (fun c => takeValueIf c (C12.tagOf cls num) op) (fun v => .prim (C12.tagOf cls num) (pcOf v))
+  | optValue {α : Type} (cls num : Nat) (ht : TagOK cls num) (op : Content → Prog (α × Content))
+      (hop : PrimOnly op) (pcOf : α → PC) (hl : LeafCanonC op pcOf) :
+      DerCodec (fun c => takeOptValueIf c (C12.tagOf cls num) op)
+        (optEnc fun v => .prim (C12.tagOf cls num) (pcOf v))
+  /-- `take_constructed_if(tag, dec)` / `sequence`, `set`, `explicit`, `Constructed::new(tag, enc)` -/
+  | cons {β : Type} (cls num : Nat) (ht : TagOK cls num) (dec : Cons → Prog (β × Cons)) (enc : β → Enc)
+      (hin : DerCodec dec enc) :
+      DerCodec (fun c => takeConstructedIf c (C12.tagOf cls num) dec) (fun v => .cons (C12.tagOf cls num) (enc v))
+  | optCons {β : Type} (cls num : Nat) (ht : TagOK cls num) (dec : Cons → Prog (β × Cons)) (enc : β → Enc)
+      (hin : DerCodec dec enc) :
+      DerCodec (fun c => takeOptConstructedIf c (C12.tagOf cls num) dec)
+        (optEnc fun v => .cons (C12.tagOf cls num) (enc v))
+  /-- the empty tuple -/
+  | seqNil (k : SeqKind) : DerCodec (fun c => (pure ((), c) : Prog (Unit × Cons))) (fun _ => .seq k [])
+  /-- tuples, `Vec`, slices: items in order -/
+  | seqCons {β γ : Type} (k : SeqKind) (d1 : Cons → Prog (β × Cons)) (d2 : Cons → Prog (γ × Cons))
+      (e1 : β → Enc) (es : γ → List Enc) (h1 : DerCodec d1 e1) (h2 : DerCodec d2 (fun b => .seq k (es b))) :
+      DerCodec (fun c => do let (a, c1) ← d1 c; let (b, c2) ← d2 c1; pure ((a, b), c2))
+        (fun p => .seq k (e1 p.1 :: es p.2))
+  /-- `Choice2` / `Choice3` -/
+  | choice {β : Type} (n i : Nat) (dec : Cons → Prog (β × Cons)) (enc : β → Enc) (h : DerCodec dec enc) :
+      DerCodec dec (fun v => .choice n i (enc v))
+  /-- post-processing of the decoded value -/
+  | map {β γ : Type} (dec : Cons → Prog (β × Cons)) (enc : β → Enc) (f : β → γ) (enc' : γ → Enc)
+      (hf : ∀ a, enc' (f a) = enc a) (h : DerCodec dec enc) :
+      DerCodec (fun c => do let (a, c1) ← dec c; pure (f a, c1)) enc'
+
+/-- **C05, `der_canonical`: decode, then encode, for every composition.**  Whenever a decoder built
+    from the crate's combinators over the supported leaf types accepts in DER mode — in any context
+    (top level, inside a definite parent with any limit), with anything following — the octets it
+    consumed are exactly what the matching encoder writes in DER mode for the decoded value. -/
+theorem der_canonical {β : Type} (dec : Cons → Prog (β × Cons)) (enc : β → Enc) (h : DerCodec dec enc) :
+    Canon dec enc := by
+  induction h with
+  | prim cls num ht p hp pcOf hl => exact canon_prim cls num ht p hp pcOf hl
+  | optPrim cls num ht p hp pcOf hl => exact canon_optPrim cls num ht p hp pcOf hl
+  | value cls num ht op hop pcOf hl => exact canon_value cls num ht op hop pcOf hl
+  | optValue cls num ht op hop pcOf hl => exact canon_optValue cls num ht op hop pcOf hl
+  | cons cls num ht dec enc _ ih => exact canon_cons cls num ht dec enc ih
+  | optCons cls num ht dec enc _ ih => exact canon_optCons cls num ht dec enc ih
+  | seqNil k => exact canon_nil k
+  | seqCons k d1 d2 e1 es _ _ ih1 ih2 => exact canon_seq k d1 d2 e1 es ih1 ih2
+  | choice n i dec enc _ ih => exact canon_choice n i dec enc ih
+  | map dec enc f enc' hf _ ih => exact canon_map dec enc f enc' hf ih
+
+/-- **C05 at top level**: if `Mode::Der.decode(source, dec)` succeeds on `d` with `v`, then `d` begins
+    with exactly the DER encoding of `v`, and the source is left right behind it -/
+theorem top_canonical {β : Type} (dec : Cons → Prog (β × Cons)) (enc : β → Enc) (h : Canon dec enc)
+    (d : Bytes) (v : β) (g' : G0) (hr : runG0 (decodeTop .der dec) (St d none) = .ok (v, g')) :
+    ∃ bytes tail, (enc v).write .der = .ok bytes ∧ d = bytes ++ tail ∧ g' = St tail none := by
+  simp only [decodeTop, runG0_bind] at hr
+  cases hr1 : runG0 (dec ⟨.unbounded, .der⟩) (St d none) with
+  | error e => rw [hr1] at hr; cases hr
+  | ok r1 =>
+    obtain ⟨⟨a, c1⟩, g1⟩ := r1
+    rw [hr1] at hr
+    obtain ⟨bytes, tail, hw, _, hd, hc, hg, _⟩ := h ⟨.unbounded, .der⟩ d none a c1 g1 rfl hr1
+    subst hc; subst hg
+    simp only [Cons.exhausted, runG0_pure, Except.ok.injEq, Prod.mk.injEq] at hr
+    obtain ⟨hv, hg'⟩ := hr
+    subst hv
+    exact ⟨bytes, tail, hw, hd, hg'.symm⟩
+
+/-- the same on the contract-checking layer `runG` (what the test driver executes) -/
+theorem top_canonical_runG {β : Type} (dec : Cons → Prog (β × Cons)) (enc : β → Enc) (h : Canon dec enc)
+    (d : Bytes) (v : β) (g' : G) (hr : runG (decodeTop .der dec) { data := d, limit := none } = .ok (v, g')) :
+    ∃ bytes, (enc v).write .der = .ok bytes ∧ d = bytes ++ g'.data := by
+  have h0 := sim0_ok _ _ _ _ hr
+  have he : ({ data := d, limit := none } : G).erase = St d none := rfl
+  rw [he] at h0
+  obtain ⟨bytes, tail, hw, hd, hg⟩ := top_canonical dec enc h d v g'.erase h0
+  refine ⟨bytes, hw, ?_⟩
+  have : g'.data = tail := congrArg G0.data hg
+  rw [this]; exact hd
+
+/-- **two different octet strings never decode in DER mode to equal values** (typed level): two
+    accepted inputs with the same decoded value begin with the same octets — the encoding of the value —
+    and differ at most in what is left unread behind it -/
+theorem typed_injective {β : Type} (dec : Cons → Prog (β × Cons)) (enc : β → Enc) (h : Canon dec enc)
+    (a b : Bytes) (v : β) (ga gb : G0)
+    (ha : runG0 (decodeTop .der dec) (St a none) = .ok (v, ga))
+    (hb : runG0 (decodeTop .der dec) (St b none) = .ok (v, gb)) :
+    ∃ bytes, (enc v).write .der = .ok bytes ∧ a = bytes ++ ga.data ∧ b = bytes ++ gb.data := by
+  obtain ⟨b1, t1, hw1, hd1, hg1⟩ := top_canonical dec enc h a v ga ha
+  obtain ⟨b2, t2, hw2, hd2, hg2⟩ := top_canonical dec enc h b v gb hb
+  rw [hw1] at hw2
+  cases hw2
+  exact ⟨b1, hw1, by rw [hg1]; exact hd1, by rw [hg2]; exact hd2⟩
+
+/-- … so if both inputs were read to their end, they are equal -/
+theorem typed_injective_full {β : Type} (dec : Cons → Prog (β × Cons)) (enc : β → Enc) (h : Canon dec enc)
+    (a b : Bytes) (v : β) (ga gb : G0)
+    (ha : runG0 (decodeTop .der dec) (St a none) = .ok (v, ga)) (hea : ga.data = [])
+    (hb : runG0 (decodeTop .der dec) (St b none) = .ok (v, gb)) (heb : gb.data = []) : a = b := by
+  obtain ⟨bytes, _, h1, h2⟩ := typed_injective dec enc h a b v ga gb ha hb
+  rw [h1, h2, hea, heb]
+
+/-- together with C04 (`encode` then `decode` gives the value back): on accepted input, decoding the
+    re-encoding gives the same value again, i.e. `encode ∘ decode` is the identity on accepted DER -/
+theorem reencode_decodes {β : Type} (dec : Cons → Prog (β × Cons)) (enc : β → Enc) (h : Canon dec enc)
+    (d : Bytes) (v : β) (g' : G0) (hr : runG0 (decodeTop .der dec) (St d none) = .ok (v, g')) (he : g'.data = []) :
+    (enc v).write .der = .ok d := by
+  obtain ⟨bytes, tail, hw, hd, hg⟩ := top_canonical dec enc h d v g' hr
+  rw [hg] at he
+  have : tail = [] := he
+  rw [hw, hd, this, List.append_nil]
+
+/-! ## non-vacuity -/
+
+/-! 1. headers: non-minimal identifier and length forms are rejected by the DER readers -/
+example : readIdent [0x1f, 0x05, 0xaa] = none := by decide            -- long form for a number below 31
+example : readIdent [0x1f, 0x80, 0x7f] = none := by decide            -- leading zero digit
+example : readIdent [0x1f, 0x81, 0x00] = some (⟨0, false, 128⟩, 3) ∧
+    identOctets 0 false 128 = [0x1f, 0x81, 0x00] := by decide
+example : readLen false [0x81, 0x03, 0x00] = none ∧ readLen true [0x81, 0x03, 0x00] = some (some 3, 2) := by decide
+example : readLen false [0x81, 0x80] = some (some 128, 2) ∧ lenOctets 128 = [0x81, 0x80] := by decide
+example : readLen false [0x80, 0x00] = some (none, 1) := by decide     -- read as indefinite, rejected by the value rule
+
+/-! 2. structure: `30 03 02 01 05` is accepted in DER and its tree re-encodes to the same octets; the
+    same value with a non-minimal length (`30 81 03 …`) or in indefinite form is accepted in BER with
+    equal / similar trees but rejected in DER — which is why BER decoding is not injective and DER is -/
+example : parseAll .der 5 [0x30, 0x03, 0x02, 0x01, 0x05] = some [.cons ⟨0, true, 16⟩ false [.prim ⟨0, false, 2⟩ [0x05]]] := by
+  rfl
+example : treesBytes [.cons ⟨0, true, 16⟩ false [.prim ⟨0, false, 2⟩ [0x05]]] = [0x30, 0x03, 0x02, 0x01, 0x05] := by
+  decide
+example : wfTrees [.cons ⟨0, true, 16⟩ false [.prim ⟨0, false, 2⟩ [0x05]]] = true ∧
+    fuelTrees [.cons ⟨0, true, 16⟩ false [.prim ⟨0, false, 2⟩ [0x05]]] ≤ 5 := by decide
+set_option maxRecDepth 4000 in
+example : parseAll .ber 5 [0x30, 0x81, 0x03, 0x02, 0x01, 0x05] =
+      some [.cons ⟨0, true, 16⟩ false [.prim ⟨0, false, 2⟩ [0x05]]] ∧
+    parseAll .der 5 [0x30, 0x81, 0x03, 0x02, 0x01, 0x05] = none := by
+  constructor
+  · rfl
+  · decide
+example : parseAll .der 5 [0x30, 0x80, 0x02, 0x01, 0x05, 0x00, 0x00] = none := by rfl
+example : parseAll .der 5 [0x1f, 0x05, 0x00] = none := by rfl
+
+/-! 3. leaves: `02 02 00 05` is structurally fine but its content is not what any encoder writes, and
+    the typed accessor rejects it; `01 01 01` likewise in DER -/
+example : parseAll .der 5 [0x02, 0x02, 0x00, 0x05] = some [.prim ⟨0, false, 2⟩ [0x00, 0x05]] := by rfl
+example : C14.primRun (toInt .u8) [0x00, 0x05] [] = .error .content := by rfl
+example : C14.primRun (toInt .u8) [0x05] [0xaa] = .ok (5, St [0xaa] (some 0)) ∧ (PC.int .u8 5).write = [0x05] := by
+  constructor <;> rfl
+example : C14.primRun (toBool .der) [0x01] [] = .error .content := by rfl
+example : C14.primRun (toBool .der) [0xff] [] = .ok (true, St [] (some 0)) ∧ (PC.bool true).write = [0xff] := by
+  constructor <;> rfl
+
+/-! 4. a composition: SEQUENCE { INTEGER (i16), BOOLEAN, [0] EXPLICIT NULL OPTIONAL } (the sample of C04) -/
+
+/-- the encoder matching `C04.sampleDec`, as a function of the decoded value -/
+def sampleEnc : (Int × Bool × Option (Unit × Unit) × Unit) → Enc :=
+  fun v => .cons (C12.tagOf 0 16)
+    ((fun (p : Int × Bool × Option (Unit × Unit) × Unit) => Enc.seq .tuple
+      ((fun i => Enc.prim (C12.tagOf 0 2) (.int .i16 i)) p.1 ::
+        (fun (p : Bool × Option (Unit × Unit) × Unit) =>
+          (fun b => Enc.prim (C12.tagOf 0 1) (.bool b)) p.1 ::
+            (fun (p : Option (Unit × Unit) × Unit) =>
+              (optEnc fun (v : Unit × Unit) => Enc.cons (C12.tagOf 2 0)
+                ((fun (p : Unit × Unit) => Enc.seq .tuple
+                  ((fun _ => Enc.prim (C12.tagOf 0 5) .null) p.1 :: (fun _ => []) p.2)) v)) p.1 ::
+                (fun _ => []) p.2) p.2) p.2)) v)
+
+example : sampleEnc (300, true, some ((), ()), ()) = C04.sample := rfl
+example : sampleEnc (-5, false, none, ()) =
+    .cons (C12.tagOf 0 16) (.seq .tuple [.prim (C12.tagOf 0 2) (.int .i16 (-5)), .prim (C12.tagOf 0 1) (.bool false),
+      .optNone]) := rfl
+
+theorem sample_derCodec : DerCodec (C04.sampleDec .der) sampleEnc := by
+  have t1 : TagOK 0 16 := ⟨by omega, by omega, by omega⟩
+  have t2 : TagOK 0 2 := ⟨by omega, by omega, by omega⟩
+  have t3 : TagOK 0 1 := ⟨by omega, by omega, by omega⟩
+  have t4 : TagOK 2 0 := ⟨by omega, by omega, by omega⟩
+  have t5 : TagOK 0 5 := ⟨by omega, by omega, by omega⟩
+  have c5 := DerCodec.seqCons .tuple _ _ _ (fun _ => [])
+    (DerCodec.prim 0 5 t5 toNull w_toNull (fun _ => .null) leaf_null_canonical) (DerCodec.seqNil .tuple)
+  have c4 := DerCodec.optCons 2 0 t4 _ _ c5
+  have c3 := DerCodec.seqCons .tuple _ _ _ (fun _ => []) c4 (DerCodec.seqNil .tuple)
+  have c2 := DerCodec.seqCons .tuple _ _ _ _
+    (DerCodec.prim 0 1 t3 (toBool .der) (w_toBool .der) (fun b => .bool b) leaf_bool_canonical) c3
+  have c1 := DerCodec.seqCons .tuple _ _ _ _
+    (DerCodec.prim 0 2 t2 (toInt .i16) (w_toInt .i16) (fun i => .int .i16 i) (leaf_int_canonical .i16)) c2
+  exact DerCodec.cons 0 16 t1 _ _ c1
+
+/-- whatever the sample decoder accepts in DER mode is the DER encoding of what it returned -/
+theorem sample_canonical (d : Bytes) (v : Int × Bool × Option (Unit × Unit) × Unit) (g' : G0)
+    (h : runG0 (decodeTop .der (C04.sampleDec .der)) (St d none) = .ok (v, g')) :
+    ∃ bytes tail, (sampleEnc v).write .der = .ok bytes ∧ d = bytes ++ tail ∧ g' = St tail none :=
+  top_canonical _ _ (der_canonical _ _ sample_derCodec) d v g' h
+
+/-- the hypothesis is satisfiable: the sample octets are accepted (C04) … -/
+example : runG0 (decodeTop .der (C04.sampleDec .der))
+    (St [0x30, 0x0b, 0x02, 0x02, 0x01, 0x2c, 0x01, 0x01, 0xff, 0xa0, 0x02, 0x05, 0x00] none) =
+    .ok ((300, true, some ((), ()), ()), St [] none) :=
+  C04.sample_roundtrip .der _ rfl
+/-- … and re-encoding the decoded value gives them back -/
+example : (sampleEnc (300, true, some ((), ()), ())).write .der =
+    .ok [0x30, 0x0b, 0x02, 0x02, 0x01, 0x2c, 0x01, 0x01, 0xff, 0xa0, 0x02, 0x05, 0x00] := by rfl
 
 end Bcder.Props.C05
